@@ -123,6 +123,13 @@ def configs(ctx):
     C['late-joiner-deep-fork-C-not-listening'] = {'chains': [A, B, Cc], 'dials': [(2, 1)], 'late_dials': [(0, 1)],
                                                   'no_listen': [2], 'small': False}
     C['line-C-not-listening'] = {'chains': [A, B, Cc], 'dials': [(2, 1), (1, 0)], 'no_listen': [2], 'small': False}
+    # the node at the end of the line does not listen and dials the hub, the hub dials the other end: whichever node holds the
+    # longest chain, the hub's only link to one neighbour is a connection that neighbour opened
+    for pos in range(3):
+        ch = [short, short, short]
+        ch[pos] = longc
+        ch[(pos + 1) % 3] = mid
+        C['line-end-not-listening-long-at-%d' % pos] = {'chains': list(ch), 'dials': [(2, 1), (1, 0)], 'no_listen': [2], 'small': False}
     C['late-joiner-shallow'] = {'chains': [chain(2, 'a', 6), chain(2, 'a', 3), chain(2, 'b', 2)], 'dials': [(1, 2)],
                                 'late_dials': [(0, 1)], 'small': False}
     return C
